@@ -96,6 +96,40 @@ PROPS = {
                 "non-trivial = the model reached the option loop (tags ok+ecs / ok+opt)",
         "assumptions": ["ECS options of 256 bytes or more are outside the premise (invalid per RFC 7871)"],
     },
+    "C03": {
+        "proof_files": ["Proofs/TimedFacts.v", "Proofs/ResolverFacts.v", "Proofs/QueryFacts.v"],
+        "runs": [{"engine": "resolver", "args": ["-mode", "fault"], "n_quick": 45, "n_thorough": 1500, "netns": True}],
+        "trivial_tags": [r"/ok$"],
+        "rule": "per request fault scripts over DoH (real HTTP/2+TLS server: status errors, empty, >=65535-byte and junk bodies, hang "
+                "before headers / mid-body, reset before headers / mid-body, trickle fast/slow, connection refused) and DNS53 (no answer, "
+                "mismatched IDs, 1-byte datagram, late answer, junk, ICMP unreachable), each followed by a well-behaved exchange, through the real "
+                "proxy front end with timeout 400 ms; judged: exactly one reply within timeout+300 ms (spec) and reply bytes = model. "
+                "non-trivial = the fault step (not the follow-up ok exchange)",
+        "assumptions": ["a blocked Read/RoundTrip returns at its deadline (Go runtime, net/http, kernel): assumed by the model, measured here",
+                        "steady (non-electing) endpoint: elections are excluded by the property"],
+    },
+    "C06": {
+        "proof_files": ["Proofs/ResolverFacts.v", "Proofs/CacheFacts.v"],
+        "runs": [{"engine": "resolver", "args": ["-mode", "hist"], "n_quick": 160, "n_thorough": 8000, "netns": True}],
+        "trivial_tags": [r"hit0$"],
+        "rule": "random histories (4-24 ops) on one real resolver.DNS: DoH queries under 3 profiles (real HTTP/2+TLS, request path observed), "
+                "DNS53 queries after a forced election, repeated questions incl. other profile / other letter case, clock advances (cache and "
+                "last-modified stamps shifted), upstream errors, X-Conf-Last-Modified announcements; compared per query: reply bytes, FromCache, "
+                "error, whether the upstream was asked, request path, ResolveInfo.Profile; c06_ok evaluated on every cache-served reply. "
+                "non-trivial = history with at least one cache hit",
+        "assumptions": ["ARC eviction is modelled as an arbitrary Forget step (the engine's cache never evicts)",
+                        "whole-second ages: histories taking longer than 0.8 s of real time are skipped"],
+    },
+    "C07": {
+        "proof_files": ["Proofs/CacheFacts.v", "Proofs/ResolverFacts.v"],
+        "runs": [{"engine": "ttl", "args": [], "n_quick": 3000, "n_thorough": 300000},
+                 {"engine": "resolver", "args": ["-mode", "hist"], "n_quick": 120, "n_thorough": 8000, "netns": True}],
+        "trivial_tags": [r"/zero$", r"hit0$"],
+        "rule": "generated response messages (all RR mixes, pointer names, OPT in any section, TTLs 0..2^32-1, count-overflow games) and "
+                "damaged ones x 3 (age, max-age, max-ttl) settings through updateTTL / AdjustedResponse (sub-second jitter); per record "
+                "ttl_ok spec on the implementation's output; plus the cache histories of C06 for the serve decision. non-trivial = minTTL>0 / cache hit",
+        "assumptions": ["len(buf) >= len(msg) in AdjustedResponse (the request buffer is 64 KiB)"],
+    },
     "C05": {
         "proof_files": ["Proofs/ReplyFacts.v"],
         "runs": [
